@@ -84,6 +84,13 @@ pub fn grid_fact(ev: Ev) -> Vec<String> {
     for t in ["170", "171", "200", "0.1", "0.9", "(-0.9)", "(-0.1)"] {
         g.push(t.to_string());
     }
+    // whole values that carry fractional zeros (a Decimal keeps them: 3.0 and 3 differ in scale, not in value),
+    // written out and computed
+    for n in 0..=28 {
+        g.push(format!("{}.0", n));
+        g.push(format!("{}.00", n));
+        g.push(format!("({}.5+0.5)", n));
+    }
     // next to the poles of x! (the negative integers): -n +- 2^-k, written out exactly
     for n in (1..=24i32).chain([50, 99, 100, 149]) {
         for k in [8i32, 16, 24, 30, 36, 44] {
